@@ -1,5 +1,6 @@
 SPECIFICATION MCSpec
 CONSTANTS
+  AllSchedules = TRUE
   PermuteModules = FALSE
   N = 4
   Kinds = {"val", "ptr", "vptr"}
